@@ -190,7 +190,12 @@ def templated_keys_contract(ex, vars):
     ex.do_raise(ExcSym(T.TKexc(v, o), "KeyNotFoundError"))
 
 
-FN_CONTRACTS = {("labrea.option", "_templated_keys"): templated_keys_contract}
+def get_lock_contract(ex, vars):
+    """overload._get_lock(id): the per-instance lock (lock discipline itself is C15's AST obligation)"""
+    return LockV("overload-instance-lock")
+
+
+FN_CONTRACTS = {("labrea.option", "_templated_keys"): templated_keys_contract, ("labrea.overload", "_get_lock"): get_lock_contract}
 
 
 class Runs:
